@@ -602,3 +602,73 @@ func storesIntoNestedTable(f *ir.Func) bool {
 	})
 	return hit
 }
+
+// Rule added in seed round p.
+func init() {
+	Explanations["C02"] += " (R8) every tree node an apply or revert update hands to the store is written: in the visitor passed to ForEachTreeNode no path reaches the end without the bucket write (a node skipped on revert keeps the hash of the reverted block and later becomes a proof sibling)."
+	register(&Rule{ID: "C02.R8", Prop: "C02", Floor: 2, Doc: "the visitor handed to ForEachTreeNode writes every node it is given (no path around the bucket write)", Run: c02r8})
+	mutant(Mutant{Rule: "C02.R8", Name: "revert-skips-top-rows", File: "chain/db.go",
+		Old: "\tcru.ForEachTreeNode(func(row, col uint64, h types.Hash256) {\n", New: "\tcru.ForEachTreeNode(func(row, col uint64, h types.Hash256) {\n\t\tif row > 40 {\n\t\t\treturn\n\t\t}\n"})
+}
+
+func c02r8(c *Ctx) {
+	put := c.P.Method("chain", "DBBucket", "Put")
+	n := 0
+	for _, f := range c.P.PkgFuncs("chain") {
+		if f.Body == nil {
+			continue
+		}
+		for _, call := range f.Calls(true) {
+			if call.Fn == nil || call.Fn.Name() != "ForEachTreeNode" || len(call.Expr.Args) != 1 {
+				continue
+			}
+			if rn := recvNamed(call.Fn); rn == nil || (rn.Obj().Name() != "ApplyUpdate" && rn.Obj().Name() != "RevertUpdate") {
+				continue
+			}
+			var lf *ir.Func
+			if lit, ok := ast.Unparen(call.Expr.Args[0]).(*ast.FuncLit); ok {
+				lf = c.P.LitOf(lit)
+			} else if fn := funcRef(f, call.Expr.Args[0]); fn != nil {
+				lf = c.P.FuncOf(fn)
+			}
+			n++
+			ob := c.Ob(f, "every-node-written", call.Pos())
+			if lf == nil || lf.Body == nil {
+				ob.Unknown("the visitor handed to ForEachTreeNode is not a literal or a declared function")
+				continue
+			}
+			g := lf.Graph()
+			c.VisitGraph(lf)
+			writes := func(nd *cfgx.Node) bool {
+				if nd.AST == nil {
+					return false
+				}
+				for _, c2 := range lf.NodeCalls(nd) {
+					if c2.Fn != nil && (c2.Fn == put || reaches(c.P, c2.Fn, put, 3)) {
+						return true
+					}
+				}
+				return false
+			}
+			any := false
+			for _, nd := range g.Nodes {
+				if writes(nd) {
+					any = true
+				}
+			}
+			if !any {
+				ob.Unknown("no bucket write recognised in the visitor")
+				continue
+			}
+			reach := g.Reach([]*cfgx.Visit{cfgx.StartAt(g.Entry, 0)}, writes)
+			if v, ok := reach[g.Exit]; ok {
+				ob.Bad(c.Witness(v), "the visitor handed to ForEachTreeNode can finish without writing the node it was given: the stored tree keeps a hash from another block at that position, and the proofs the store hands out later (once the node is a proof sibling) differ from those of a node that saw the chain linearly")
+			} else {
+				ob.OK("every path writes the node")
+			}
+		}
+	}
+	if n == 0 {
+		ir.Fail("no ForEachTreeNode call found in package chain")
+	}
+}
